@@ -106,6 +106,26 @@ func colSel(c tcell.Color, ti *terminfo.Terminfo, truecolor bool, palette []tcel
 	return fmt.Sprintf("i%d", int(v&0xff))
 }
 
+var opPenCache = map[string][2]string{}
+
+// opPen asks the reference what colours the entry's `op` (ResetFgBg) selects after `sgr0`: "39;49" gives the
+// defaults, but a few entries (pcansi, …) select explicit colours.
+func opPen(ti *terminfo.Terminfo) (string, string) {
+	if v, ok := opPenCache[ti.Name]; ok {
+		return v[0], v[1]
+	}
+	fg, bg := "d", "d"
+	if ti.ResetFgBg != "" {
+		d := h.Ref("emu 2 1 1 1 acs:- W " + h.Hex([]byte(ti.AttrOff+ti.ResetFgBg)))
+		kv, _ := parseEmuDump(d)
+		if p := strings.Split(kv["pen"], ","); len(p) == 6 {
+			fg, bg = p[0], p[1]
+		}
+	}
+	opPenCache[ti.Name] = [2]string{fg, bg}
+	return fg, bg
+}
+
 func expectPen(st StyleF, ti *terminfo.Terminfo, der map[string]string, truecolor bool) string {
 	nc := ti.Colors
 	if nc > 256 {
@@ -127,6 +147,16 @@ func expectPen(st StyleF, ti *terminfo.Terminfo, der map[string]string, truecolo
 		bgRGB := truecolor && b.IsRGB() && (ti.SetBgRGB != "" || (ti.SetFgBgRGB != "" && f.IsRGB()))
 		fg = colSel(f, ti, fgRGB, palette)
 		bg = colSel(b, ti, bgRGB, palette)
+		if f == tcell.ColorReset || b == tcell.ColorReset {
+			// `op` was sent: whatever it selects stays for the components that are not set afterwards
+			ofg, obg := opPen(ti)
+			if fg == "d" {
+				fg = ofg
+			}
+			if bg == "d" {
+				bg = obg
+			}
+		}
 		if ti.SetFg == "" && ti.SetFgBg == "" && strings.HasPrefix(fg, "i") {
 			fg = "?"
 		}
@@ -324,6 +354,16 @@ func execDraw(line string) (res h.Result) {
 		emuOps = append(emuOps, "W "+h.Hex(b))
 		block++
 	}
+	if strings.Contains(ti.Clear, "\x0c") {
+		emuOps = append(emuOps, "C ff") // this terminal clears the screen on form feed
+	}
+	// a terminal without hyperlink support has no hyperlink state to lose: after corruption / resize tell the
+	// reference (whose hyperlink becomes "unknown") that none is open
+	noLink := func() {
+		if der["enterUrl"] == "" {
+			emuOps = append(emuOps, "A 1b5d383b3b1b5c")
+		}
+	}
 	record("i", tty.TakeWrites())
 	sh := &drawShadow{w: w, h: hh, ttyw: w, ttyh: hh, cells: map[[2]int]*drawCell{}, locked: map[[2]int]bool{}, cx: -1, cy: -1,
 		trusted: true, fresh: true, changed: map[[2]int]bool{}, allowed: map[[2]int]map[int]bool{}}
@@ -482,11 +522,13 @@ func execDraw(line string) (res h.Result) {
 			sh.ttyw, sh.ttyh = h.Atoi(t[1]), h.Atoi(t[2])
 			tty.SetSizeQuiet(sh.ttyw, sh.ttyh)
 			emuOps = append(emuOps, fmt.Sprintf("R %d %d", sh.ttyw, sh.ttyh))
+			noLink()
 			sh.trusted = false
 			tags["resize-quiet"] = true
 		case "RN":
 			sh.ttyw, sh.ttyh = h.Atoi(t[1]), h.Atoi(t[2])
 			emuOps = append(emuOps, fmt.Sprintf("R %d %d", sh.ttyw, sh.ttyh))
+			noLink()
 			tty.Resize(sh.ttyw, sh.ttyh)
 			bs := waitWrites(tty, 1, 2*time.Second)
 			resizeShadow()
@@ -499,6 +541,7 @@ func execDraw(line string) (res h.Result) {
 			tags["resize-notify"] = true
 		case "X":
 			emuOps = append(emuOps, "X")
+			noLink()
 			sh.trusted = false
 			tags["corrupt"] = true
 		}
@@ -630,7 +673,7 @@ func validScalar(r int) bool { return r >= 0 && r <= 0x10FFFF && !(r >= 0xD800 &
 // ---- generator ----
 
 var drawRunes = []int{'a', 'b', 'z', '#', ' ', 0x4e16, 0x754c, 0xff21, 0x1f600, 0xe9, 0x2500, 0x25c6, 0, 7, 27, 0x7f, 0x85, 0x9b, 0x200b, 0x202e, 0xad, -1, 0x110000, 0xfffd, 0xd800}
-var drawComb = []int{0x301, 0x308, 0x20dd, 0xfe0f}
+var drawComb = []int{0x301, 0x308, 0x20dd, 0x200d} // zero-width, non-control marks (by the library's width table)
 
 func drawStyle(r *h.Rand) StyleF {
 	f := RandStyle(r)
@@ -638,6 +681,36 @@ func drawStyle(r *h.Rand) StyleF {
 		f.Attrs &^= 1 << 31
 	}
 	return f
+}
+
+// fitOps renders the values of the external colour fitting (go-colorful through tcell.FindColor, called directly)
+// for the colours a case uses, as two pseudo-ops the Lean driver reads and the implementation ignores.
+func fitOps(name string, cols map[uint64]bool) []string {
+	ti := terminfo.VerifEntries()[name]
+	nc := ti.Colors
+	if nc > 256 {
+		nc = 256
+	}
+	palette := make([]tcell.Color, nc)
+	for i := range palette {
+		palette[i] = tcell.Color(i) | tcell.ColorValid
+	}
+	var keys []uint64
+	for c := range cols {
+		if tcell.Color(c).Valid() {
+			keys = append(keys, c)
+		}
+	}
+	sort.Slice(keys, func(i, j int) bool { return keys[i] < keys[j] })
+	var a, b []string
+	for _, c := range keys {
+		a = append(a, fmt.Sprintf("%d:%d", c, uint64(tcell.FindColor(tcell.Color(c), palette))))
+		b = append(b, fmt.Sprintf("%d:%d", c, uint64(tcell.FindColor(tcell.Color(c), []tcell.Color{tcell.ColorBlack, tcell.ColorWhite}))))
+	}
+	if len(a) == 0 {
+		return nil
+	}
+	return []string{"FIT " + strings.Join(a, ","), "FIT0 " + strings.Join(b, ",")}
 }
 
 func genDraw(g *h.Gen) {
@@ -653,6 +726,12 @@ func genDraw(g *h.Gen) {
 		w, hh := r.Range(2, 7), r.Range(1, 4)
 		var ops []string
 		nops := r.Range(4, 36)
+		cols := map[uint64]bool{}
+		drawStyle := func(r *h.Rand) StyleF {
+			f := drawStyle(r)
+			cols[f.Fg], cols[f.Bg], cols[f.UlColor] = true, true, true
+			return f
+		}
 		if r.Chance(40) {
 			ops = append(ops, "Y "+drawStyle(r).String())
 		}
@@ -700,6 +779,7 @@ func genDraw(g *h.Gen) {
 		if r.Chance(30) {
 			ops = append(ops, "W") // an idle Show
 		}
+		ops = append(ops, fitOps(name, cols)...)
 		w0, h0 := r.Range(2, 7), r.Range(1, 4)
 		g.Emit("draw %s %d %d %d %s", name, r.Intn(2), w0, h0, strings.Join(ops, "; "))
 	}
